@@ -195,6 +195,7 @@ type fScenario struct {
 	afterEvent func(x *fx) *violation
 	inhibit    map[string][]string
 	deadline   time.Time // zero: the test's whole budget
+	hang       time.Duration // > 0: how long a hanging / slow delivery takes (default 8s)
 }
 
 var fTmpRoot string
@@ -207,6 +208,9 @@ func (s *fScenario) run(t *testing.T, h []int) (res seqx.Result) {
 	defer os.RemoveAll(dir)
 	synctest.Test(t, func(t *testing.T) {
 		env := newEnv(s.integs)
+		if s.hang > 0 {
+			env.hangFor = s.hang
+		}
 		x := &fx{t: t, env: env, gt: newGT(s.rt), yaml: s.yaml, fo: s.fo, dir: dir, sil: map[string]string{}}
 		x.gt.inhibitedBy = s.inhibit
 		defer func() {
@@ -365,6 +369,25 @@ func TestVerifC01App(t *testing.T) {
 			{"webhook: ok", func(x *fx) bool { x.setMode("r1/webhook/0", mOK); return true }},
 			{"reload", func(x *fx) bool { x.reload(); return true }},
 			evAdvance(4 * time.Second), evAdvance(10 * time.Second), evAdvance(30 * time.Second), evAdvance(61 * time.Second),
+		}}
+	s.explore(t)
+}
+
+// C01 with a delivery that takes most of a group interval (25 s of 30 s): the group keeps its cadence of one flush per
+// group_interval counted from the START of the previous flush, so an alert that joins the group during the slow
+// delivery is reported one interval after the slow flush began, not one interval after it ended.
+func TestVerifC01AppSlowFlush(t *testing.T) {
+	fInit(t)
+	c := fMon1()
+	s := &fScenario{prop: "C01", part: "app-slow-flush", yaml: fYAML1, integs: fIntegs1, mon: c, fo: defaultFOpts(), rt: time.Minute,
+		tail: 3 * time.Minute, depthQ: 4, depthT: 5, monitors: stdMonitors(c), hang: 25 * time.Second,
+		events: []fEvent{
+			{"fire A1 (end+1h)", func(x *fx) bool { x.fire("A1", "1", time.Hour); return true }},
+			{"fire A2 (same group, end+1h)", func(x *fx) bool { x.fire("A2", "1", time.Hour); return true }},
+			{"webhook: every delivery takes 25s, then succeeds", func(x *fx) bool { x.setMode("r1/webhook/0", mSlow); return true }},
+			{"webhook: hangs 25s (or until the flush gives up), then succeeds", func(x *fx) bool { x.setMode("r1/webhook/0", mHang); return true }},
+			{"webhook: ok", func(x *fx) bool { x.setMode("r1/webhook/0", mOK); return true }},
+			evAdvance(5 * time.Second), evAdvance(11 * time.Second), evAdvance(30 * time.Second),
 		}}
 	s.explore(t)
 }
